@@ -13,6 +13,9 @@ for p in props:
         for n in ast.parse(open(f).read()).body:
             if isinstance(n, ast.Assign) and getattr(n.targets[0], "id", "") == "META":
                 meta = ast.literal_eval(n.value)
+    ready = set(open(os.path.join(V, "tools", "ready.txt")).read().split())
+    if pid not in ready:
+        meta = None
     if not meta or meta.get("disabled"):
         na.append({"property_id": pid, "reason": (meta or {}).get("disabled") or
                    "check not built yet (model and proof planned in DESIGN.md section 6; not claimed until its check runs green)"})
